@@ -66,6 +66,8 @@ def run(ctx):
     ctx.exhaustive = True
     filler = [{'id': 'proto.alpha.michelson_v1.bad_return', 'kind': 'permanent'}, {'id': 'unregistered_a', 'kind': 'x'}]
 
+    subclasses = sorted(set(handlers.values()), key=lambda c: c.__name__)
+
     def judge(eid, prefix):
         errs = list(prefix) + [{'id': eid, 'kind': 'temporary', 'msg': 'm'}]
         exp = model_choice(handlers, eid, RpcError)
@@ -82,6 +84,18 @@ def run(ctx):
         ctx.case((eid, len(prefix)), nontrivial=len(classes) != 1,
                  sample={'errors': errs, 'expected': exp.__name__, 'got': getattr(got, '__name__', repr(got))})
         ctx.count('from_errors_calls')
+        if got is exp and len(eid) % 3 == 0:
+            # the same list through the classmethod as inherited by the registered subclasses: the verdict is about the list
+            for sub in subclasses:
+                try:
+                    gs = type(sub.from_errors(errs))
+                except Exception as e:
+                    gs = e
+                ctx.count('from_errors_calls_through_a_subclass')
+                if gs is not exp:
+                    ctx.violation('C27|wrong-class|called-through-a-subclass', 'id=%s through %s: expected=%s got=%s' % (eid, sub.__name__, exp.__name__, getattr(gs, '__name__', repr(gs))),
+                                  {'id': eid, 'prefix': prefix})
+                    break
         if got is not exp:
             which = 'final-vs-category' if (chunks[-1] in handlers and exp is handlers[chunks[-1]]) else \
                     'noprefix' if ('.'.join(chunks[2:]) in handlers) else 'other'
